@@ -45,6 +45,7 @@ type Dump struct {
 	Kinds        map[string]int
 	nextDead     int
 	allTypes     []types.Type
+	unsup        []unsup
 }
 
 // CanPoint mirrors internal/pointer.CanPoint (an external module cannot import internal packages).
@@ -218,7 +219,12 @@ func (d *Dump) unsupported(f *ssa.Function, ins ssa.Instruction, why string) {
 	if ins != nil {
 		s += " in `" + ins.String() + "`"
 	}
-	d.Unsupported = append(d.Unsupported, s)
+	d.unsup = append(d.unsup, unsup{f, s})
+}
+
+type unsup struct {
+	fn   *ssa.Function
+	text string
 }
 
 func (d *Dump) emit(f int, ins ssa.Instruction, format string, args ...any) {
@@ -441,12 +447,29 @@ func (d *Dump) instr(fn *ssa.Function, f int, ins ssa.Instruction) {
 			d.unsupported(fn, ins, "field / index of an aggregate value")
 		}
 	case *ssa.Select:
+		nrecv := 0
 		for _, st := range ins.States {
-			if HasPointers(st.Chan.Type().Underlying().(*types.Chan).Elem()) {
-				d.unsupported(fn, ins, "select on a channel of pointers")
-				break
+			if st.Dir == types.RecvOnly {
+				nrecv++
 			}
 		}
+		ex := d.extracts(fn, ins, 2+nrecv)
+		k := 0
+		for _, st := range ins.States {
+			elem := st.Chan.Type().Underlying().(*types.Chan).Elem()
+			if !CanPoint(elem) && HasPointers(elem) {
+				d.unsupported(fn, ins, "select on a channel of aggregates with pointers")
+			}
+			if st.Dir == types.RecvOnly {
+				if CanPoint(elem) {
+					d.emit(f, ins, "load %d %s B", ex[2+k], d.opnd(fn, st.Chan))
+				}
+				k++
+			} else if CanPoint(elem) {
+				d.emit(f, ins, "store %s B %s", d.opnd(fn, st.Chan), d.opnd(fn, st.Send))
+			}
+		}
+		d.Kinds["Select"]++
 	case *ssa.Range, *ssa.BinOp, *ssa.If, *ssa.Jump, *ssa.RunDefers, *ssa.DebugRef:
 	default:
 		d.unsupported(fn, ins, fmt.Sprintf("instruction kind %T", ins))
@@ -739,6 +762,12 @@ func New(state *dataflow.AnalyzerState) *Dump {
 					d.Lines = append(d.Lines, fmt.Sprintf("root %d", d.fn(g)))
 				}
 			}
+		}
+	}
+	// constructs outside the fragment matter only in reachable functions (the criteria look at nothing else)
+	for _, u := range d.unsup {
+		if reach[u.fn] {
+			d.Unsupported = append(d.Unsupported, u.text)
 		}
 	}
 	// real result: reach, call graph, points-to sets
